@@ -49,6 +49,113 @@ def feval(n, env):
     raise AnalysisError(f"mju_isBad: expression kind {k} is outside the comparison-only fragment")
 
 
+
+def wake_nan(res):
+    """R-WAKE-NAN: a sleeping tree is skipped by the velocity / acceleration scans, so a non-finite velocity written into it is
+    contained only if it wakes the tree.  The predicate mj_wake uses to decide whether a sleeping tree was touched (a function
+    of engine_sleep.c that reads qvel and the applied forces and returns an int; called with a zero tolerance) is evaluated by
+    the finite interpreter on a one-dof tree with all applied forces zero: it must say "may stay asleep" for qvel = 0 (which
+    validates the set-up) and "touched" for qvel = NaN and for qvel = 1."""
+    import math
+    from types import SimpleNamespace
+    from .. import finite
+    from . import c25 as _c25
+    SLEEP = "src/engine/engine_sleep.c"
+    res.rule("R-WAKE-NAN", "the test that keeps a sleeping tree asleep treats a NaN velocity as a change", floor=1)
+    us = engine.unit(SLEEP)
+    if "mj_wake" not in us.funcs:
+        raise AnalysisError(f"anchor mj_wake missing in {SLEEP}")
+    cands = []
+    for name, fn in us.funcs.items():
+        if (fn.get("file") or us.tu) != us.tu or not (fn.get("t") or "").startswith("int"):
+            continue
+        txt = {x.get("n") for x in cir.walk(fn) if x.get("k") == "MemberExpr"}
+        if {"qvel", "qfrc_applied", "xfrc_applied"} <= txt and any(cir.callee(c) == name for c in cir.calls(us.funcs["mj_wake"])):
+            cands.append(fn)
+    if len(cands) != 1:
+        raise AnalysisError(f"{SLEEP}: the predicate mj_wake uses on a sleeping tree (reads qvel, qfrc_applied, xfrc_applied) was not "
+                            f"identified ({[f.get('n') for f in cands]})")
+    fn = cands[0]
+    merged = {}
+    for tu in engine.engine_tus():
+        merged.update(engine.unit(tu).funcs)
+    ns = SimpleNamespace(funcs=merged, vars={}, tu=SLEEP, enums=getattr(us, "enums", {}))
+    enum = ctypeinfo.load()["enumerators"]
+    policies = sorted({v for k_, v in enum.items() if k_.startswith("mjSLEEP_")}) or [0, 1, 2, 3]
+
+    def evaluate(v, policy):
+        env = {}
+        for _ in range(200):
+            it = _c25._zinterp(ns, env)
+            base_abs = it.call_abs
+
+            def abs_(name, node, it2, base_abs=base_abs, it=it):
+                if name == "mju_isZeroByte":
+                    a = cir.args(node)
+                    p_, nb = it.rvalue(a[0]), it.rvalue(a[1])
+                    cnt = nb.count if isinstance(nb, finite._Bytes) else None
+                    if not isinstance(p_, finite.Ptr) or not isinstance(cnt, int) or cnt > 64:
+                        raise finite.Unsupported("mju_isZeroByte on a region of unknown extent")
+                    for k_ in range(cnt):
+                        key = p_.cell(k_)
+                        x = it.mem[key] if key in it.mem else it.input(key, "mjtNum")
+                        if not (isinstance(x, (int, float)) and x == 0 and math.copysign(1.0, float(x)) > 0):
+                            return 0
+                    return 1
+                return base_abs(name, node, it2)
+            it.call_abs = abs_
+            frame = {}
+            for p_ in cir.params(fn):
+                t = p_.get("t") or ""
+                if "*" in t:
+                    frame[p_.get("id")] = finite.Ptr(p_.get("n"), 0)
+                elif finite.is_float_type(finite.base_type(t)) or "mjtNum" in t:
+                    frame[p_.get("id")] = 0.0
+                else:
+                    frame[p_.get("id")] = 0
+            it.frames.append(frame)
+            try:
+                try:
+                    it.stmt(cir.body(fn))
+                    return None
+                except finite._Return as r:
+                    return r.v
+            except finite.NeedKey as nk:
+                key = nk.key
+                if "qvel" in key:
+                    env[key] = v
+                elif "sleep_policy" in key:
+                    env[key] = policy
+                elif "applied" in key:
+                    env[key] = 0.0
+                elif key.endswith("num[0]") or "dofnum" in key or "bodynum" in key:
+                    env[key] = 1
+                elif "adr" in key:
+                    env[key] = 0
+                elif finite.is_float_type(finite.base_type(nk.ctype or "")) or "mjtNum" in (nk.ctype or ""):
+                    env[key] = 1.0
+                else:
+                    env[key] = 0
+        raise AnalysisError(f"{fn.get('n')}: too many inputs in the finite evaluation")
+    try:
+        good = [p_ for p_ in policies if evaluate(0.0, p_) == 1]
+        if not good:
+            raise AnalysisError(f"{fn.get('n')}: no sleep policy lets a force-free tree at rest stay asleep in the finite evaluation")
+        pol = good[0]
+        r_nan, r_one = evaluate(float("nan"), pol), evaluate(1.0, pol)
+    except finite.Unsupported as e:
+        raise AnalysisError(f"{fn.get('n')}: cannot be evaluated ({e})")
+    construct = f"{fn.get('n')}:nan-velocity-wakes"
+    if r_one != 0:
+        res.bad("R-WAKE-NAN", construct, SLEEP, fn.get("line"), f"{fn.get('n')} lets a tree with qvel = 1 stay asleep")
+    elif r_nan != 0:
+        res.bad("R-WAKE-NAN", construct, SLEEP, fn.get("line"),
+                f"{fn.get('n')} (zero tolerance, the call mj_wake makes) returns {r_nan} for qvel = NaN: the sleeping tree is not woken, "
+                f"the velocity / acceleration scans skip sleeping dofs, so the NaN stays in d->qvel with no warning and no reset")
+    else:
+        res.ok("R-WAKE-NAN", construct, {"policy_value": pol})
+
+
 def run(res, tier):
     uf = engine.unit(FWD)
     um = engine.unit("src/engine/engine_util_misc.c")
@@ -345,6 +452,7 @@ def run(res, tier):
         res.bad("R-COUNTER", "mj_warning", "src/engine/engine_core_util.c", ctx.reports[0]["line"], ctx.reports[0]["msg"])
     else:
         res.ok("R-COUNTER", "mj_warning", None)
+    wake_nan(res)
     res.explanation = (
         "Placement of the three state checks in the flattened stepping pipelines (all integrators), shape of each check on "
         "all paths of its bad branch (warning, guarded reset, re-count, return, recompute), exhaustive finite evaluation of "
